@@ -97,7 +97,7 @@ StopCallChecks(F, i) ==
 \* a stop()/wait() returned.  q = its call event; S = fresh starts of the service while it was in
 \* flight (the generation it was called on ended at the first of them, with the task states
 \* recorded there); nb = number of tasks when the call took its batch.
-\* Cause of KF-C10-1 on the recorded events (Dev_LateTaskAbandoned): the batch held a task that did
+\* Cause of the defect repaired in 799638e on the recorded events (Dev_LateTaskAbandoned): the batch held a task that did
 \* not return normally, and every offending task was added to _tasks after the batch was taken.
 \* The call owes the errors of the tasks that were in _tasks when it took its batch and (unless the
 \* generation was ended by a fresh start, which drops them) of the tasks added later.
@@ -211,18 +211,21 @@ Silent ==
     /\ \E a \in Actors :
          \/ loop[a].st \in {"created", "delaying"} /\ CancelLoop(a, "prop")
          \/ CancelExtra(a, "prop")
-         \/ \E c \in {"stop", "wait"} : ~Returns(a, c) /\ CallRound(a, c, FALSE)
-         \* tolerated: a repaired wait()/stop() keeps the errors and goes on to the tasks added meanwhile
-         \/ \E c \in {"stop", "wait"} : Remaining(a, c) # {} /\ CallRound(a, c, TRUE)
+         \* a wake-up of _wait() that goes on to the tasks added meanwhile (stop(): cancelling them)
+         \/ \E c \in {"stop", "wait"} : ~Returns(a, c, FALSE) /\ CallRound(a, c, FALSE)
+         \* tolerated: the same without cancelling again (the property does not determine this step)
+         \/ ~Returns(a, "stop", TRUE) /\ CallRound(a, "stop", TRUE)
          \/ RWaitBegin(a)
          \/ CallRound(a, "rwait", FALSE)
-         \/ Remaining(a, "rwait") # {} /\ CallRound(a, "rwait", TRUE)
+         \/ Returns(a, "rwait", TRUE) /\ CallRound(a, "rwait", TRUE)
     /\ KeepH /\ UNCHANGED <<tid, l, oi, ph>>
 
+\* a return is matched whether it comes when nothing is left (current design) or as soon as the
+\* batch failed (behaviour before 799638e): the clauses (a) decide, with the cause named
 RetObserved(o, c) ==
-    /\ Returns(o.a, c)
+    /\ Returns(o.a, c, TRUE)
     /\ SeqSet(o.res) = Surfaced(c, Errs(o.a, c))
-    /\ CallRound(o.a, c, FALSE)
+    /\ CallRound(o.a, c, TRUE)
 
 \* `if not self._tasks: return`: the call event is directly followed by its return
 ImmRet(o, c, callk) ==
